@@ -130,5 +130,9 @@ ASSUME PrintT(ToJson([optrees |-> OpSeq]))
 AtCapFails ==
     [][(mN.ctl.t = "call" /\ mN.ctl.f.t = "builtin" /\ mN.ctl.f.name \in {"push", "insert", "__setitem__", "__setitem_with_op__"}
         /\ Len(mN.ctl.args) >= 1 /\ mN.ctl.args[1].t \in {"list", "dict"} /\ Len(mN.heap[mN.ctl.args[1].addr].items) >= Cap)
-       => (mN'.ctl.t = "exc" /\ mN'.ctl.e.exc = "ParserError" /\ \A a \in 1..Len(mN.heap) : mN'.heap[a] = mN.heap[a])]_vars
+       => (/\ mN'.ctl.t = "exc"
+           \* (a call with more values than the entry takes is refused for that reason - TypeError - before the size check)
+           /\ (Len(mN.ctl.args) = (CASE mN.ctl.f.name = "push" -> 2 [] mN.ctl.f.name = "__setitem_with_op__" -> 4 [] OTHER -> 3)
+                 => mN'.ctl.e.exc = "ParserError")
+           /\ \A a \in 1..Len(mN.heap) : mN'.heap[a] = mN.heap[a])]_vars
 =============================================================================
